@@ -2,7 +2,7 @@
 # run_seed.sh <seed-id> <property> [tier]: apply a seeded change to /repo, run the property's check, undo the change
 id=$1; prop=$2; tier=${3:-quick}
 cd /repo && git diff --quiet || { echo "/repo not clean"; exit 2; }
-git apply /verif/seeded/$id/patch.diff || { echo "patch does not apply to /repo HEAD"; exit 2; }
+P=/verif/seeded/$id/patch.diff; [ -f /verif/seeded/$id/patch_head.diff ] && P=/verif/seeded/$id/patch_head.diff; git apply $P || { echo "patch does not apply to /repo HEAD"; exit 2; }
 cd /verif && ./check $prop $tier > /verif/build/seed_$id.out 2>&1; rc=$?
 git -C /repo checkout -- .
 echo "seed=$id prop=$prop tier=$tier rc=$rc $(grep -c '^VIOLATION' /verif/build/seed_$id.out) violation lines"
